@@ -111,11 +111,82 @@ fn goaway_frame(id: u64) -> String {
     f.extend_from_slice(&v);
     h3v::hex(&f)
 }
+#[allow(dead_code)]
 fn code_of(canon: &str) -> String {
     canon.split(':').nth(1).unwrap_or("?").to_string()
 }
 
 const HEADERS_GET: &str = "01080000d1d7500161c1";
+
+/// Environment variants selected by the family suffix (`goaway.g3`, `cgoaway.ul`, ...); the model is the same for all.
+///   g  builder default configuration (grease ON)          3  the peer lets us open only 3 uni streams
+///   u  the peer first opens a uni stream whose type byte has not arrived
+///   q  the peer's QPACK encoder/decoder streams arrive before its control stream
+///   t  the control stream's type byte, frame header and payload arrive in separate chunks
+///   l  the peer's control stream arrives late: just before its first GOAWAY
+#[derive(Clone, Copy, Default)]
+struct Env {
+    grease: bool,
+    uni3: bool,
+    unknown_first: bool,
+    qpack_first: bool,
+    split_type: bool,
+    late_ctl: bool,
+}
+fn parse_env(fam: &str) -> Env {
+    let mut e = Env::default();
+    if let Some(i) = fam.find('.') {
+        for c in fam[i + 1..].chars() {
+            match c {
+                'g' => e.grease = true,
+                '3' => e.uni3 = true,
+                'u' => e.unknown_first = true,
+                'q' => e.qpack_first = true,
+                't' => e.split_type = true,
+                'l' => e.late_ctl = true,
+                _ => panic!("unknown environment letter"),
+            }
+        }
+    }
+    e
+}
+/// streams of the peer other than its control stream (base = 2 for a client peer, 3 for a server peer)
+fn peer_other_streams(w: &Shared, base: u64, e: &Env) {
+    if e.unknown_first {
+        assert!(apply_event(w, &format!("U{}", base + 4)));
+    }
+    if e.qpack_first {
+        assert!(apply_event(w, &format!("U{}", base + 8)));
+        assert!(apply_event(w, &format!("{}:c:02", base + 8)));
+        assert!(apply_event(w, &format!("U{}", base + 12)));
+        assert!(apply_event(w, &format!("{}:c:03", base + 12)));
+    }
+}
+fn peer_control_stream(w: &Shared, base: u64, e: &Env) {
+    assert!(apply_event(w, &format!("U{}", base)));
+    if e.split_type {
+        for c in ["00", "04", "00"] {
+            assert!(apply_event(w, &format!("{}:c:{}", base, c)));
+        }
+    } else {
+        assert!(apply_event(w, &format!("{}:c:000400", base)));
+    }
+}
+/// `err:<code><variant letter>/close:<code passed to the transport's close() during this op, or ->`
+fn err_text(canon: &str, w: &Shared, log0: usize) -> String {
+    let mut it = canon.split(':');
+    let _ = it.next();
+    let code = it.next().unwrap_or("?");
+    let variant = it.next().and_then(|v| v.chars().next()).unwrap_or('?');
+    let g = w.lock().unwrap();
+    let close = g.log[log0.min(g.log.len())..]
+        .iter()
+        .find_map(|l| l.strip_prefix("close ").map(|r| r.split(' ').next().unwrap_or("?").to_string()))
+        .unwrap_or_else(|| "-".into());
+    format!("err:{}{}/close:{}", code, variant, close)
+}
+
+
 const HEADERS_BAD_QPACK: &str = "01030000ff";
 const HEADERS_MALFORMED: &str = "01030000c1"; // only `:path /`
 const DATA_FIRST: &str = "000178";
@@ -138,17 +209,24 @@ struct TaskEv {
     wires: usize,
 }
 
-fn drain_case(ops: &str) -> String {
-    let w = World::new(Side::Server, 100, 100, None);
+fn drain_case(fam: &str, ops: &str) -> String {
+    let env = parse_env(fam);
+    let w = World::new(Side::Server, if env.uni3 { 3 } else { 100 }, 100, None);
     let mut b = h3::server::builder();
-    b.send_grease(false);
+    if !env.grease {
+        b.send_grease(false);
+    }
     let conn: h3::server::Connection<SimConn, Bytes> = match poll_once(b.build(SimConn { world: w.clone() })) {
         Poll::Ready(Ok(c)) => c,
         Poll::Ready(Err(e)) => return format!("build-err {}", conn_err(&e)),
         Poll::Pending => return "build-pending".into(),
     };
-    assert!(apply_event(&w, "U2"));
-    assert!(apply_event(&w, "2:c:000400"));
+    peer_other_streams(&w, 2, &env);
+    let mut ctl_delivered = false;
+    if !env.late_ctl {
+        peer_control_stream(&w, 2, &env);
+        ctl_delivered = true;
+    }
     let ctl = w.lock().unwrap().local_streams()[0];
     let handed: Rc<RefCell<Vec<(u64, Resolver)>>> = Rc::new(RefCell::new(Vec::new()));
     let events: Rc<RefCell<Vec<TaskEv>>> = Rc::new(RefCell::new(Vec::new()));
@@ -176,7 +254,8 @@ fn drain_case(ops: &str) -> String {
                         GateWait(gate.clone()).await;
                     }
                     Err(e) => {
-                        let e = snap(format!("err:{}", code_of(&conn_err(&e))));
+                        let log0 = events.borrow().last().map(|x| x.log_len).unwrap_or(0);
+                        let e = snap(err_text(&conn_err(&e), &w2, log0));
                         events.borrow_mut().push(e);
                         // keep the connection alive until the case ends: dropping it would close the transport
                         std::future::pending::<()>().await;
@@ -221,6 +300,10 @@ fn drain_case(ops: &str) -> String {
             }
             b'G' => {
                 let id: u64 = arg.parse().unwrap();
+                if !ctl_delivered {
+                    peer_control_stream(&w, 2, &env);
+                    ctl_delivered = true;
+                }
                 assert!(apply_event(&w, &format!("2:c:{}", goaway_frame(id))));
                 groups.push(".".into());
             }
@@ -435,7 +518,7 @@ fn apply_action(w: &Shared, objs: &mut HashMap<u64, Obj>, id: u64, act: &str) ->
 
 fn main() {
     run_lines(|ws| match ws {
-        ["drain", ops] => drain_case(ops),
+        [fam, ops] if fam.starts_with("drain") => drain_case(fam, ops),
         _ => "driver-error unknown-case".into(),
     });
 }
